@@ -360,8 +360,51 @@ func (e *Engine) mergeStates(fork *node, forkKnown *knownSet, arr []*State) *Sta
 				vals = append(vals, v)
 			}
 			if !all {
-				delete(f.names, k)
-				delete(f.nameAddr, k)
+				// a snap variable recorded on some arms only: keep it, together with the condition under which it
+				// is defined (so that defined(x) survives the merge)
+				var have []Val
+				var conds []string
+				isSnap := true
+				for i, a := range arr {
+					if v, ok := a.frames[fi].names[k]; ok {
+						if a.frames[fi].nameAddr[k] || !a.frames[fi].snaps[k] {
+							isSnap = false
+						}
+						c := pcs[i]
+						if d, has := a.frames[fi].nameDef[k]; has {
+							c = sAnd(c, d)
+						}
+						have = append(have, v)
+						conds = append(conds, c)
+					}
+				}
+				if !isSnap || len(have) == 0 {
+					delete(f.names, k)
+					delete(f.nameAddr, k)
+					continue
+				}
+				r := have[len(have)-1]
+				okm := true
+				for i := len(have) - 2; i >= 0; i-- {
+					if !sameShape(have[i], r) || !mergeable(have[i]) {
+						okm = false
+						break
+					}
+					r = valIte(conds[i], have[i], r)
+				}
+				if !okm {
+					delete(f.names, k)
+					continue
+				}
+				f.names[k] = e.nameVal(m, r, "snap")
+				if f.nameDef == nil {
+					f.nameDef = map[string]string{}
+				}
+				if f.snaps == nil {
+					f.snaps = map[string]bool{}
+				}
+				f.snaps[k] = true
+				f.nameDef[k] = m.define("sdef", "Bool", sOr(conds...))
 				continue
 			}
 			if same {
